@@ -1,7 +1,7 @@
 (* Html/WfDoc.v — documents assembled from well-formed constructs (no template delimiters): the lexer returns
    exactly one token per construct with the promised type, bytes, Text()/AttrKey() and AttrVal(). *)
 From Verif Require Import Common.Base Common.Tactics Common.Lx Gen.Tables Html.Model Html.Lemmas Html.ListLemmas
-     Html.Hash Html.Safety Html.Step Html.Spec Html.RawText Html.Func Html.Proofs Html.Template Html.Wf.
+     Html.Hash Html.Safety Html.Step Html.Spec Html.RawText Html.Func Html.Proofs Html.Template Html.Wf Html.Script.
 From Coq Require Import ZifyBool.
 
 (* ---- views of a buffer in which a view w was lower-cased -------------------------------------------------------------- *)
@@ -392,10 +392,16 @@ Definition no_comment_open (content : list Z) : Prop :=
   forall k, ~ (peekz content k = Some 60 /\ peekz content (k + 1) = Some 33 /\
                peekz content (k + 2) = Some 45 /\ peekz content (k + 3) = Some 45).
 
+(* script content with "<!--" sections: the double-escape rules (Script.script_len) designate the end tag that follows the
+   content, whatever tag end comes after its name *)
+Definition script_content (content ename : list Z) : Prop :=
+  forall tail, (exists c r, tail = c :: r /\ is_tagend c = true) ->
+    script_len (content ++ 60 :: 47 :: ename ++ tail) = len content.
+
 Lemma lexes_rawtext d l pre content ename erest h :
   at_input d l pre (content ++ 60 :: 47 :: ename ++ erest) -> intag l = false -> rawtag l = h ->
   is_raw_hash h = true -> is_xml_hash h = false -> h <> html_hash_Plaintext ->
-  (h <> html_hash_Script \/ no_comment_open content) ->
+  (h <> html_hash_Script \/ no_comment_open content \/ (h = html_hash_Script /\ script_content content ename)) ->
   content <> [] -> no_lt_slash content ->
   Forall (fun c => is_letter c = true) ename -> to_hash (map lower ename) = Ok h ->
   (exists c r, erest = c :: r /\ is_tagend c = true) ->
@@ -461,8 +467,8 @@ Proof.
     - rewrite E, peekz_app_r0, peekz_cons_0 in P1. discriminate.
     - rewrite peekz_app_l in P1 by lia. exact (Hnls _ P0 P1). }
   (* (3) no "<!--" up to and including m *)
-  assert (Hpr : plain_raw h (d ++ [0]) (len pre) (m + 1)).
-  { destruct Hns as [Hns|Hnc]; [left; exact Hns|right]. intros p Hpr (C0 & C1 & C2 & C3). unfold m in Hpr.
+  assert (Hpr : (h <> html_hash_Script \/ no_comment_open content) -> plain_raw h (d ++ [0]) (len pre) (m + 1)).
+  { intros [Hns2|Hnc]; [left; exact Hns2|right]. intros p Hpr (C0 & C1 & C2 & C3). unfold m in Hpr.
     assert (Hlen3 : 1 <= len erest) by (rewrite Ee, len_cons; pose proof (len_nonneg re); lia).
     set (k := p - len pre) in *.
     replace p with (len pre + k) in C0 by (unfold k; lia). rewrite Hpk in C0 by (unfold k; lia).
@@ -479,14 +485,26 @@ Proof.
     rewrite peekz_app_l in C0, C1, C2, C3 by (unfold k in *; lia). tauto. }
   (* the call *)
   destruct (html_total_step_proof no_tmpl d l cfg_ok_no_tmpl Hi) as (ty & tk & l' & Hn & Hi').
-  destruct (html_rawtext_proof no_tmpl d l ty tk l' cfg_ok_no_tmpl Hi Hit ltac:(rewrite Hraw; exact Hh0) Hn) as (e & He & Htok & Hend & Hmin).
-  rewrite Hraw in *. rewrite Hp in *.
   assert (Hlend : len d = len pre + len s) by (rewrite Hd, len_app; reflexivity).
-  assert (Hem : e = m).
-  { destruct (Z.lt_trichotomy e m) as [Hlt|[?|Hgt]]; [|assumption|].
-    - exfalso. destruct Hend as [->|[_ Hend]]; [unfold m in Hlt; lia|]. apply (Hnone e); [lia|exact Hend].
-    - exfalso. apply (Hmin eq_refl Hnp m); [unfold m in *; lia|exact Hpr|exact Hm]. }
-  subst e. destruct (Htok ltac:(unfold m; lia)) as (-> & -> & Htx & Hr' & Hit' & Hpos').
+  assert (Hfacts : ty = TextT /\ tk = Some (mkSl (len pre) (m - len pre)) /\ ltext l' = tk /\
+                   rawtag l' = 0 /\ intag l' = false /\ lpos (lz l') = m).
+  { assert (Hold : (h <> html_hash_Script \/ no_comment_open content) -> ty = TextT /\ tk = Some (mkSl (len pre) (m - len pre)) /\ ltext l' = tk /\
+                   rawtag l' = 0 /\ intag l' = false /\ lpos (lz l') = m).
+    { intros Hns2. specialize (Hpr Hns2).
+      destruct (html_rawtext_proof no_tmpl d l ty tk l' cfg_ok_no_tmpl Hi Hit ltac:(rewrite Hraw; exact Hh0) Hn) as (e & He & Htok & Hend & Hmin).
+      rewrite Hraw in *. rewrite Hp in *.
+      assert (Hem : e = m).
+      { destruct (Z.lt_trichotomy e m) as [Hlt|[?|Hgt]]; [|assumption|].
+        - exfalso. destruct Hend as [->|[_ Hend]]; [unfold m in Hlt; lia|]. apply (Hnone e); [lia|exact Hend].
+        - exfalso. apply (Hmin eq_refl Hnp m); [unfold m in *; lia|exact Hpr|exact Hm]. }
+      subst e. exact (Htok ltac:(unfold m; lia)). }
+    destruct Hns as [Hns|[Hns|(Ehs & Hsc)]]; [apply Hold; left; exact Hns|apply Hold; right; exact Hns|].
+    assert (Hraw' : rawtag l = html_hash_Script) by congruence.
+    pose proof (html_script_end_proof d l ty tk l' Hi Hit Hraw' Hn) as Hse. cbn zeta in Hse.
+    assert (Esk : skipz (lpos (lz l)) d = s) by (rewrite Hp, Hd; apply skipz_app_len).
+    rewrite Esk in Hse. replace (script_len s) with (len content) in Hse by (symmetry; unfold s; apply Hsc; eauto). rewrite Hp in Hse. fold m in Hse.
+    destruct Hse as [_ Hse]. exact (Hse ltac:(unfold m; lia)). }
+  destruct Hfacts as (-> & -> & Htx & Hr' & Hit' & Hpos'). rewrite Hp in *.
   exists l'. split; [|tauto].
   (* the buffer is unchanged *)
   assert (Hbuf : lbuf (lz l') = lbuf (lz l)).
@@ -575,7 +593,8 @@ Definition wf_item (i : item) : Prop :=
       (exists c nm, name = c :: nm /\ is_letter c = true) /\ Forall namechar name /\
       (exists h, to_hash (map lower name) = Ok h /\ to_hash (map lower ename) = Ok h /\ is_raw_hash h = true /\
                  is_xml_hash h = false /\ h <> html_hash_Plaintext /\
-                 (h <> html_hash_Script \/ no_comment_open content)) /\   (* style title textarea xmp iframe; script without "<!--" *)
+                 (h <> html_hash_Script \/ no_comment_open content \/
+                  (h = html_hash_Script /\ script_content content ename))) /\   (* style title textarea xmp iframe; script without "<!--", or with sections that the rules close *)
       all_ws ws /\ wf_attrs attrs (ws ++ closer false) /\
       content <> [] /\ no_lt_slash content /\
       ename <> [] /\ Forall (fun c => is_letter c = true) ename /\ Forall (fun c => is_ws c = true) ews
@@ -979,18 +998,38 @@ Example html_wellformed_nonvacuous :
                    60;115;118;103;62;60;103;47;62;60;47;83;86;71;32;62] /\
   length (doc_obs doc) = 12%nat.
 Proof.
-  split; [|split; reflexivity]. cbn [wf_doc wf_item is_text]. repeat split; try discriminate; try reflexivity.
-  all: try (repeat constructor; unfold ci_eq; lia).
-  all: try (repeat constructor; discriminate).
-  all: try (eexists _, _; split; reflexivity).
-  all: try (repeat constructor; vm_compute; repeat split; reflexivity || discriminate || (intros; discriminate)).
-  all: try (eexists; split; vm_compute; reflexivity).
-  - right. exists 39, [99]. split; [reflexivity|]. split; [tauto|repeat constructor; discriminate].
-  - exists html_hash_Style. repeat split; try (vm_compute; reflexivity); try (vm_compute; discriminate). left. vm_compute. discriminate.
-  - intros k Hk Hk1. destruct (Z.eq_dec k 1) as [->|Hne]; [vm_compute in Hk1; discriminate|].
-    assert (0 <= k < 3) by (apply peekz_some in Hk; exact Hk).
-    assert (k = 0 \/ k = 2) as [-> | -> ] by lia; vm_compute in Hk; discriminate.
-  - exists 62, [60; 103; 47; 62]. split; [reflexivity|tauto].
+  split; [|split; reflexivity]. cbn [wf_doc is_text is_plain].
+  split; [|split; [discriminate|split; [discriminate|]]].
+  { cbn [wf_item]. split; [repeat constructor; unfold ci_eq; lia|repeat constructor; discriminate]. }
+  split; [|split; [discriminate|split; [discriminate|]]].
+  { cbn [wf_item]. split; [eexists _, _; split; reflexivity|]. split; [repeat constructor; discriminate|].
+    split; [eexists; split; vm_compute; reflexivity|]. split; [constructor|].
+    cbn [wf_attrs wf_attr]. split.
+    - split; [discriminate|]. split; [repeat constructor|]. split; [discriminate|]. split; [repeat constructor; vm_compute; repeat split; discriminate|].
+      split; [constructor|]. split; [constructor|]. right. exists 39, [99]. split; [reflexivity|]. split; [tauto|repeat constructor; discriminate].
+    - split; [|exact I]. split; [discriminate|]. split; [repeat constructor|]. split; [discriminate|]. repeat constructor; vm_compute; repeat split; discriminate. }
+  split; [|split; [intros _; reflexivity|split; [discriminate|]]].
+  { cbn [wf_item]. split; [discriminate|repeat constructor; discriminate]. }
+  split; [|split; [discriminate|split; [discriminate|]]].
+  { cbn [wf_item]. split; [eexists _, _; split; reflexivity|]. split; [repeat constructor; vm_compute; reflexivity|constructor; [reflexivity|constructor]]. }
+  split; [|split; [discriminate|split; [discriminate|]]].
+  { cbn [wf_item]. split; [eexists _, _; split; reflexivity|].
+    split; [repeat constructor; vm_compute; repeat split; discriminate|].
+    split.
+    { exists html_hash_Style. split; [vm_compute; reflexivity|]. split; [vm_compute; reflexivity|].
+      split; [vm_compute; reflexivity|]. split; [vm_compute; reflexivity|]. split; [vm_compute; discriminate|].
+      left. vm_compute. discriminate. }
+    split; [constructor|]. split; [cbn [wf_attrs]; exact I|]. split; [discriminate|].
+    split.
+    { intros k Hk Hk1. assert (0 <= k < 3) by (apply peekz_some in Hk; exact Hk).
+      assert (k = 0 \/ k = 1 \/ k = 2) as [-> | [-> | -> ]] by lia; vm_compute in Hk, Hk1; discriminate. }
+    split; [discriminate|]. split; [repeat constructor|repeat constructor]. }
+  split; [|split; [discriminate|split; [discriminate|exact I]]].
+  cbn [wf_item]. split; [eexists _, _; split; reflexivity|].
+  split; [repeat constructor; vm_compute; repeat split; discriminate|].
+  split; [vm_compute; reflexivity|]. split; [vm_compute; reflexivity|]. split; [vm_compute; reflexivity|].
+  split; [exists 62, [60; 103; 47; 62]; split; [reflexivity|tauto]|].
+  split; [vm_compute; reflexivity|]. split; repeat constructor.
 Qed.
 
 (* non-vacuity of the svg / math grammar with quotes and nested tags:
@@ -1042,7 +1081,7 @@ Proof.
     split.
     { exists html_hash_Script. split; [vm_compute; reflexivity|]. split; [vm_compute; reflexivity|].
       split; [vm_compute; reflexivity|]. split; [vm_compute; reflexivity|]. split; [vm_compute; discriminate|].
-      right. intros k (C0 & C1 & _). assert (0 <= k < 3) by (apply peekz_some in C0; exact C0).
+      right; left. intros k (C0 & C1 & _). assert (0 <= k < 3) by (apply peekz_some in C0; exact C0).
       assert (k = 0 \/ k = 1 \/ k = 2) as [-> | [-> | -> ]] by lia; vm_compute in C0, C1; discriminate. }
     split; [constructor|]. split; [cbn [wf_attrs]; exact I|]. split; [discriminate|].
     split.
